@@ -299,3 +299,6 @@ func sanitize(s string) string {
 	}
 	return b.String()
 }
+
+// useLambdaArrays adds array-lambda definitions next to the quantified definitions of copied arrays.
+var useLambdaArrays = true
